@@ -14,6 +14,7 @@ import Cosi.Driver.Queue
 import Cosi.Driver.DepDB
 import Cosi.Driver.Selector
 import Cosi.Driver.Alias
+import Cosi.Driver.Access
 
 open Cosi
 
@@ -34,7 +35,8 @@ def engines : List (String × Engine) := [
   ("selector", ⟨Driver.Selector.St, Driver.Selector.init, Driver.Selector.stepLine⟩),
   ("pipeline", ⟨Driver.Pipeline.St, Driver.Pipeline.init, Driver.Pipeline.stepLine⟩),
   ("ctrl", ⟨Driver.Ctrl.St, Driver.Ctrl.init, Driver.Ctrl.stepLine⟩),
-  ("alias", ⟨Driver.Alias.St, Driver.Alias.init, Driver.Alias.stepLine⟩)
+  ("alias", ⟨Driver.Alias.St, Driver.Alias.init, Driver.Alias.stepLine⟩),
+  ("access", ⟨Driver.Access.St, Driver.Access.init, Driver.Access.stepLine⟩)
 ]
 
 partial def loop (e : Engine) (spec : Bool) (inp : IO.FS.Stream) (out : IO.FS.Stream) (st : e.σ) : IO Unit := do
